@@ -308,6 +308,76 @@ def run_graph(w, graph_index: int, is_async: bool, with_falsy: bool) -> None:
     execute_graph(w, graph_index, is_async, spec, model, scripts, budgets, probe_info, expect, obj_classes, truth, tops[:6])
 
 
+SAME_DEF_SOURCE = '''
+import icontract
+
+
+def make(tag, helper=None):
+    """Every call makes a new contracted function from the very same ``def`` (the function objects share one code object)."""
+
+    @icontract.require(lambda x: HUB.cond("pre:" + tag, {"x": x}) and (helper is None or helper(x) is not None))
+    @icontract.ensure(lambda result: HUB.cond("post:" + tag, {"result": result}))
+    def limited(x):
+        HUB.body("body:" + tag, {"x": x})
+        return x
+
+    return limited
+
+
+small = make("small")
+big = make("big", helper=small)
+huge = make("huge", helper=big)
+
+
+def make_class(tag, other=None):
+    @icontract.invariant(lambda self: HUB.inv("inv:" + tag, self))
+    class Account(icontract.DBC):
+        @icontract.require(lambda self, amount: HUB.cond("pre:" + tag, {"amount": amount})
+                           and (other is None or other.withdraw(amount) is not None))
+        def withdraw(self, amount):
+            HUB.body("body:" + tag, {"amount": amount})
+            return amount
+
+    return Account
+
+
+First = make_class("first")
+first = First()
+Second = make_class("second", other=first)
+second = Second()
+'''
+
+
+def run_same_def(w) -> None:
+    """Distinct contracted functions / classes made from one ``def`` / ``class`` statement: a call of one from a condition of another is
+    a call of ANOTHER function and is fully checked."""
+    loaded = prog.load_source(SAME_DEF_SOURCE, w.scratch())
+    mod, hub = loaded.module, loaded.hub
+    try:
+        for tag, call, want in (
+                ("function-made-twice", lambda: mod.big(1), ["pre:big", "pre:small", "body:small", "post:small", "body:big", "post:big"]),
+                ("function-made-three-times", lambda: mod.huge(1), ["pre:huge", "pre:big", "pre:small", "body:small", "post:small", "body:big", "post:big",
+                                                                     "body:huge", "post:huge"]),
+                ("method-of-class-made-twice", lambda: mod.second.withdraw(1), ["inv:second", "pre:second", "inv:first", "pre:first", "body:first", "inv:first",
+                                                                              "body:second", "inv:second"])):
+            hub.reset()
+            try:
+                call()
+                outcome = "returned"
+            except BaseException as err:  # pylint: disable=broad-except
+                outcome = "raised {}: {}".format(type(err).__name__, str(err)[:100])
+            evs = [e.id for e in hub.events]
+            w.count("invocations_judged", 2)
+            w.count("must_check_invocations")
+            w.count("same_def_calls")
+            w.case(("same-def", tag))
+            if outcome != "returned" or evs != want:
+                w.violation("C10/call-of-another-function-made-from-the-same-def-unchecked", "{}: {}; events {} but the call made from the condition "
+                            "is a call of another function (expected {})".format(tag, outcome, evs, want), {"same_def": tag})
+    finally:
+        loaded.unload()
+
+
 def run_directed(w, graph_index: int, is_async: bool) -> None:
     """Directed graphs: a contract probe re-enters its own function EVERY time it runs, after another contracted function was checked in
     between (called by the probe itself and, every time, by the body); termination rests on the suspension rule alone."""
@@ -525,6 +595,8 @@ def run_other_flows(w) -> None:
 def run(w) -> None:
     if w.shard == 0:
         run_other_flows(w)
+    if w.shard == 1 % w.nshards:
+        run_same_def(w)
     n = 20000 if w.tier == "thorough" else 1500
     for i in range(n):
         if i % w.nshards != w.shard:
@@ -539,6 +611,9 @@ def run(w) -> None:
 def replay(case, w) -> None:
     if "other_flow" in case:
         run_other_flows(w)
+        return
+    if "same_def" in case:
+        run_same_def(w)
         return
     spec = case["prog"]
     scripts = {k: [tuple(c) for c in v] for k, v in case["scripts"].items()}
